@@ -14,8 +14,11 @@
     unreferenced node is left, [nozero]), so [len] counts live nodes only and
     "the size with the variable at level [p]" does not depend on how the
     variable got there ([C07_visited_size], from [C07b_size_determined]).
-    The only error outcome is [Err EOracle] (iteration-order oracle of the
-    model; excluded by an empty tape, [C07b_no_oracle]).
+    The error outcomes are [Err EOracle] (iteration-order oracle of the
+    model; excluded by an empty tape, [C07b_no_oracle]) and, with a bounded
+    table only, [Err ERuntime] (a swap of the sweep refused by the full-table
+    pre-check; excluded by [max_nodes = None], [C07b_unbounded]; the manager is
+    then the one between two swaps, [Sift8.reorder_var_safe]).
 
     Only statements closed by [exact]; proofs live in [Proofs/SiftMin.v]. *)
 From DD Require Import SiftMin Total.
@@ -79,7 +82,7 @@ Print Assumptions C07_visited_size.
 Theorem C07_reorder_var_min L s var al r s' :
   Gd L s → nozero s → levels_ok s al → is_Some (vars s !! var) →
   reorder_var var al s = (r, s') →
-  r = Err EOracle ∨
+  r = Err EOracle ∨ r = Err ERuntime ∨
   ∃ k al' lv, r = Ok (k, al') ∧ vars s !! var = Some lv ∧
     Stp L s s' ∧ levels_ok s' al' ∧ vperm (mv lv k) s s' ∧ k < nvars s ∧
     (∀ p, p < nvars s → ∃ v, Visited L s lv p v ∧ len s' ≤ v) ∧
